@@ -291,9 +291,9 @@ def main(argv=None):
         # verdicts for failing obligations
         for (kind, clause), obs in failing_clauses.items():
             ki = match_known(c.fq, kind, clause)
-            nat_hits = nat_fail_clauses.get(clause, []) if kind == "ensures" else (
+            nat_hits = nat_fail_clauses.get(clause, []) if kind in ("ensures", "raised") else (
                 nat_fail_clauses.get("raises", []) if kind == "raises" else [])
-            nat_clause = clause if kind == "ensures" else None
+            nat_clause = clause if kind in ("ensures", "raised") else None
             if not nat_hits and kind in ("inv-step", "inv-entry", "safe", "requires@call", "frame", "loop-source-stable"):
                 # an intermediate obligation fails: any native violation of this function's contract is the
                 # concrete witness (the postconditions are only proved *from* the invariants)
